@@ -575,6 +575,7 @@ func runFetch(enc *json.Encoder, sc fetchScn, scratch string, n int) {
 	canon := canonical(sc.Kind, body)
 	ev := map[string]any{"ev": "fetch", "kind": sc.Kind, "variant": sc.Variant, "desc": sc.Desc, "ref": sc.Ref, "hdr": sc.Hdr,
 		"hdrmt": sc.HdrMT, "via": sc.Via, "served_sha256": h256(body), "served_sha512": h512(body),
+		"servedp_sha256": h256(canon),
 		"canon_sha256": h256(canon), "canon_sha512": h512(canon), "canon_len": len(canon), "raw_len": len(body), "body_mt": bodyMT(body),
 		"put_done": 0, "put_sha256": "", "put_digest": "", "rep_digest": "", "rep_size": 0, "rep_mt": "", "raw_sha256": "", "mj_sha256": ""}
 	hdrMT := ""
@@ -700,7 +701,6 @@ func runFetch(enc *json.Encoder, sc fetchScn, scratch string, n int) {
 		if sc.Kind == "d1_signed" {
 			// a signed document is identified by its payload: compare payloads (surrounding white space
 			// of the JWS envelope is not part of what the digest names)
-			ev["served_sha256"] = h256(canon)
 			if ev["put_done"] == 1 {
 				ev["put_sha256"] = h256(canonical(sc.Kind, fr2put))
 			}
